@@ -188,7 +188,7 @@ def le(vals, i):
 class Ctx:
     def __init__(self, prop, tier, keep, jobs, only):
         self.prop, self.tier, self.keep, self.jobs, self.only = prop, tier, keep, jobs, only
-        self.work = os.path.join(HERE, "work", prop + "-" + tier)
+        self.work = os.path.join(HERE, "work", prop + "-" + tier + os.environ.get("VERIF_WORK_SUFFIX", ""))
         self.replays = os.path.join(HERE, "work", "replays")
         self.t0 = time.time()
 
